@@ -286,11 +286,16 @@ def r3_rbgeom(ctx):
     g = tuple(tuple(F.sym(f"g{i}{k}") for k in "xyz") for i in range(ng))
     r = tuple(F.sym(f"r{k}") for k in "xyz")
 
+    dead = []          # the first scenario that cannot be evaluated is reported, the others are not tried (same cause)
+
     def results(args, what, truth=None):
+        if dead:
+            return None
         try:
             runs = N.explore(ctx, N2P, fn, args, truth=truth)
         except Unsupported as e:
             ctx.error(f"rbgeom ({what}): evaluation", fn, str(e))
+            dead.append(what)
             return None
         runs = _returns(ctx, runs, f"rbgeom ({what})", fn)
         out = []
@@ -298,6 +303,7 @@ def r3_rbgeom(ctx):
             v = N.to_nested(run.ret)
             if not (isinstance(run.ret, N.Arr) and run.ret.shape == (6 * ng, 6)) or G.any_unknown(v):
                 ctx.error(f"rbgeom ({what}): the result is a (6 n, 6) array", fn, _show(v))
+                dead.append(what)
                 return None
             out.append(v)
         return out or None
